@@ -265,11 +265,11 @@ func (f *flat) msg(m wire.Msg) {
 		f.update(v)
 	case *client.VirtualChannelFundingProposalMsg:
 		f.update(&v.ChannelUpdateMsg)
-		f.signedState("VirtualChannelFundingProposal.Initial", &v.Initial)
+		f.signedState("SignedState", &v.Initial)
 		f.indexMap("VirtualChannelFundingProposal.IndexMap", v.IndexMap)
 	case *client.VirtualChannelSettlementProposalMsg:
 		f.update(&v.ChannelUpdateMsg)
-		f.signedState("VirtualChannelSettlementProposal.Final", &v.Final)
+		f.signedState("SignedState", &v.Final)
 	case *client.ChannelUpdateAccMsg:
 		f.add("ChannelUpdateAcc.ChannelID", "%x", v.ChannelID)
 		f.add("ChannelUpdateAcc.Version", "%d", v.Version)
